@@ -183,8 +183,12 @@ Definition br_target (pos : N) (off : Z) : res N :=
   let t := (Z.of_N pos + off)%Z in
   if (0 <=? t)%Z && (t <? 65536)%Z then Ok (Z.to_N t) else Err.
 
-Definition skip_res (k : N) (s : bytes) : res bytes :=
-  if k <=? N.of_nat (length s) then Ok (skipn (N.to_nat k) s) else Err.
+Fixpoint skip_nat (k : nat) (s : bytes) : res bytes :=
+  match k with
+  | O => Ok s
+  | S k' => match s with [] => Err | _ :: r => skip_nat k' r end
+  end.
+Definition skip_res (k : N) (s : bytes) : res bytes := skip_nat (N.to_nat k) s.
 
 (* n consecutive i32 branch offsets (tableswitch arms), each creating a label *)
 Fixpoint scan_arms (clen pos : N) (n : nat) (s : bytes) (ls : labels) : res (bytes * labels) :=
